@@ -16,12 +16,23 @@ def goodMsgBody (ps : List Str) : List TEvent → Bool
       | none => false
   | _ => false
 
+/-- the element form `<i18n:msg params="…">content</i18n:msg>`: SUB-free content that neither
+    starts with a START nor ends with a START / END event (finding C19-msg-element-first-child)
+    and whose message buffer can be built -/
+def goodElemBody (ps : List Str) : List TEvent → Bool
+  | [] => false
+  | first :: rest =>
+      !first.isStart && !(rest.getLast?.getD first).isEnd && !(rest.getLast?.getD first).isStart &&
+        noSubList (first :: rest) &&
+        (match mbAppendList (MB.new ps) (first :: rest) with | .ok _ => true | .error _ => false)
+
 mutual
-  /-- every SUB event either carries no message directive, or is a plain `i18n:msg` -/
+  /-- every SUB event either carries no message directive, or is a plain `i18n:msg` (attribute
+      or element form) -/
   def okMsgEv : TEvent → Bool
     | .sub ds b =>
         (match ds with
-         | [.msg ps] => goodMsgBody ps b
+         | [.msg ps] => goodMsgBody ps b || goodElemBody ps b
          | _ => false) || (!hasExtractable ds && okMsgList b)
     | _ => true
   def okMsgList : List TEvent → Bool
@@ -210,6 +221,115 @@ theorem msg_sub (cfg : Cfg) (ps : List Str) (body : List TEvent) (hg : goodMsgBo
     | _ => simp [goodMsgBody] at hg
 
 
+theorem exSub_msg (cfg : Cfg) (ps : List Str) (body : List TEvent) (st : Bool) (cs xs : List Str) :
+    exSub cfg st cs xs (.sub [.msg ps] body) = msgExtract cfg ps st cs xs body := by
+  simp only [exSub, List.length_cons, List.length_nil, subLoop1, List.getElem?_cons_zero, Dir.isI18n, ↓reduceIte,
+    bind, Except.bind, pure, Except.pure]
+  cases hm : msgExtract cfg ps st cs xs body <;>
+    simp [subLoop1, subLoop2, bind, Except.bind, pure, Except.pure, hm]
+
+theorem evMessages_not_start (cfg : Cfg) (st : Bool) (e : TEvent) (h : e.isStart = false) :
+    evMessages cfg st e = exprCode e := by
+  cases e <;> simp_all [evMessages, exprCode, TEvent.isStart]
+
+/-- what `MsgDirective.extract` returns for the element form -/
+theorem msgExtract_elem (cfg : Cfg) (ps : List Str) (first : TEvent) (rest : List TEvent)
+    (hg : goodElemBody ps (first :: rest) = true) (st : Bool) (cs xs : List Str) :
+    ∃ B m, mbAppendList (MB.new ps) (first :: rest) = .ok B ∧
+      contextify none (.one (some B.format)) (lastSlice cs) (lastSlice xs) = some m ∧ B.format ∈ msgIds m ∧
+      msgExtract cfg ps st cs xs (first :: rest) = .ok ((first :: rest).flatMap (evMessages cfg st) ++ [m]) ∧
+      msgId ps (first :: rest) = .ok (some B.format) := by
+  simp only [goodElemBody, Bool.and_eq_true, Bool.not_eq_true'] at hg
+  obtain ⟨⟨⟨⟨hf, hle⟩, hls⟩, hns⟩, hok⟩ := hg
+  cases hB : mbAppendList (MB.new ps) (first :: rest) with
+  | error err => simp [hB] at hok
+  | ok B =>
+    obtain ⟨m, hm, hid⟩ := contextify_none_ok B.format (lastSlice cs) (lastSlice xs)
+    refine ⟨B, m, rfl, hm, hid, ?_, ?_⟩
+    · -- split the stream into its initial part and its last event
+      have hsplit : ∃ init last, first :: rest = init ++ [last] ∧ (first :: rest).dropLast = init ∧
+          (first :: rest).getLast?.getD first = last ∧ rest.getLast?.getD first = last := by
+        cases hl : rest.getLast? with
+        | none =>
+          have : rest = [] := by simpa using hl
+          subst this
+          exact ⟨[], first, rfl, rfl, rfl, rfl⟩
+        | some last =>
+          have hr := dropLast_append_last' rest last hl
+          have hne : rest ≠ [] := by intro h; subst h; simp at hl
+          refine ⟨first :: rest.dropLast, last, by rw [List.cons_append, ← hr], ?_, ?_, rfl⟩
+          · cases rest with
+            | nil => exact absurd rfl hne
+            | cons x y => simp
+          · rw [List.getLast?_cons_of_ne_nil hne, hl]; rfl
+      obtain ⟨init, last, hs, hdl, hgl, hgl'⟩ := hsplit
+      rw [hgl'] at hle hls
+      rw [hs, mbAppendList_append'] at hB
+      cases hb : mbAppendList (MB.new ps) init with
+      | error err => rw [hb] at hB; simp [Except.bind] at hB
+      | ok b =>
+        rw [hb] at hB
+        simp only [Except.bind, mbAppendList_single'] at hB
+        have hall := appendAll_buffer cfg st init (MB.new ps)
+        rw [hb] at hall
+        cases ha : appendAll cfg st (MB.new ps) init with
+        | error err => rw [ha] at hall; simp [Except.map] at hall
+        | ok r =>
+          rw [ha] at hall
+          simp only [Except.map, Except.ok.injEq] at hall
+          have hattr := startAttrs_of_appendAll cfg st init (MB.new ps) r ha
+          unfold msgExtract
+          simp only [hf, Bool.false_eq_true, ↓reduceIte, hdl, hgl, ha, bind, Except.bind]
+          rw [show r.2 = b from hall, hB]
+          simp only [hm, pure, Except.pure, Except.ok.injEq]
+          rw [hs, List.flatMap_append, hattr]
+          simp [evMessages_not_start cfg st last hls]
+    · rw [msgId_eq ps _ (by simp)]
+      have : msgBody (first :: rest) = first :: rest := by
+        simp only [msgBody, hf, Bool.false_eq_true, ↓reduceIte]
+        cases hl : rest.getLast? with
+        | none =>
+          have : rest = [] := by simpa using hl
+          subst this; rfl
+        | some last =>
+          rw [hl] at hle
+          simp only [Option.getD_some] at hle
+          simp only [hle, Bool.false_eq_true, ↓reduceIte]
+          rw [← dropLast_append_last' rest last hl]; rfl
+      rw [this, hB]; rfl
+
+/-- the element form of the message directive in the simultaneous induction -/
+theorem msg_sub_elem (cfg : Cfg) (ps : List Str) (body : List TEvent) (hg : goodElemBody ps body = true)
+    (st : Bool) (cs xs : List Str) :
+    ∃ ms, exSub cfg st cs xs (.sub [.msg ps] body) = .ok ms ∧
+      (∀ (ctx : Ctx) (ta : Bool), (ta = true → st = true) → Incl ms (lkSub cfg ctx ta (.sub [.msg ps] body))) ∧
+      Has ms (msgIdsEv (.sub [.msg ps] body)) := by
+  cases body with
+  | nil => simp [goodElemBody] at hg
+  | cons first rest =>
+    obtain ⟨B, m, hB, hm, hid, hex, hmid⟩ := msgExtract_elem cfg ps first rest hg st cs xs
+    have hns : noSubList (first :: rest) = true := by
+      simp only [goodElemBody, Bool.and_eq_true] at hg; exact hg.1.2
+    refine ⟨_, by rw [exSub_msg]; exact hex, ?_, ?_⟩
+    · intro ctx ta hta
+      simp only [lkSub, hasExtractable, List.any_cons, Dir.isExtractable, List.any_nil, Bool.or_false,
+        Bool.not_true, Bool.and_false]
+      have hperm : (reorder [Dir.msg ps]).dirs = [Dir.msg ps] := by simp [reorder, reorderGo]
+      have hpush : (reorder [Dir.msg ps]).pushed = [] := by simp [reorder, reorderGo]
+      simp only [hperm, hpush, List.nil_append, List.any_cons, Dir.isExtractable, List.any_nil, Bool.or_false,
+        Bool.not_true, Bool.and_false]
+      have := incl_attrs_list cfg ctx (cfg.extractText && ta) st
+        (fun h => hta (by simp only [Bool.and_eq_true] at h; exact h.2)) (first :: rest) 0 hns
+      exact Incl.mono this (fun x hx => List.mem_append_left _ hx)
+    · intro id hid'
+      simp only [msgIdsEv, hasExtractable, List.any_cons, Dir.isExtractable, List.any_nil, Bool.or_false,
+        ↓reduceIte, List.append_nil, hmid, List.mem_singleton] at hid'
+      subst hid'
+      rw [idsOf_append]
+      simp only [List.mem_append]
+      right
+      simp [idsOf, hid]
+
 theorem Has.cons {m : Message} {b : List Message} {ids : List Str} (hb : Has b ids) : Has (m :: b) ids :=
   Has.right (a := [m]) hb
 
@@ -234,7 +354,14 @@ mutual
         · -- a plain message directive
           match dirs, h with
           | [.msg ps], h =>
-            obtain ⟨ms, hms, hincl, hhas⟩ := msg_sub cfg ps body h st cs xs
+            have hsub : ∃ ms, exSub cfg st cs xs (.sub [.msg ps] body) = .ok ms ∧
+                (∀ (ctx : Ctx) (ta : Bool), (ta = true → st = true) → Incl ms (lkSub cfg ctx ta (.sub [.msg ps] body))) ∧
+                Has ms (msgIdsEv (.sub [.msg ps] body)) := by
+              simp only [Bool.or_eq_true] at h
+              rcases h with h | h
+              · exact msg_sub cfg ps body h st cs xs
+              · exact msg_sub_elem cfg ps body h st cs xs
+            obtain ⟨ms, hms, hincl, hhas⟩ := hsub
             refine ⟨ms, hms, fun hst ctx ta hta => hincl ctx ta (fun hta' => ?_), hhas⟩
             have he := hta hta'
             rw [he] at hst
